@@ -39,6 +39,62 @@ fn run_once(ct: &CircuitText, shots: usize, seed: u64, repr: &str) -> String
     r.unwrap_or_else(|_| "panic".to_string())
 }
 
+/// "Run after run": the SAME circuit object is first taken through a different history (another seed, and for
+/// `same_shots` the same shot count, so that any buffer the object keeps has the right size to be reused), then executed
+/// with the seed under test.  The result must be the one a fresh object gives.
+fn run_on_used_object(ct: &CircuitText, shots: usize, seed: u64, repr: &str, same_shots: bool, reexecute_first: bool) -> String
+{
+    let ctc = ct.clone();
+    let repr = repr.to_string();
+    let r = std::panic::catch_unwind(move || {
+        let mut c = match build(&ctc) { Ok(c) => c, Err(e) => return format!("build-{}", show_err(&e).replace(' ', "_")) };
+        let exec = |c: &mut q1tsim::circuit::Circuit, shots: usize, rng: &mut Counting<rand_hc::Hc128Rng>| match repr.as_str()
+        {
+            "vector" => c.execute_with(shots, rng, q1tsim::circuit::QuStateRepr::vector(ctc.nq, shots)),
+            "stabilizer" => c.execute_with(shots, rng, q1tsim::circuit::QuStateRepr::stabilizer(ctc.nq, shots)),
+            _ => c.execute_with_rng(shots, rng)
+        };
+        let mut other = Counting { inner: rand_hc::Hc128Rng::seed_from_u64(seed ^ 0x9e3779b97f4a7c15), words32: 0, words64: 0, bytes: 0 };
+        let _ = exec(&mut c, if same_shots { shots } else { shots + 3 }, &mut other);
+        if reexecute_first { let _ = c.reexecute_with_rng(&mut other); }
+        let mut rng = Counting { inner: rand_hc::Hc128Rng::seed_from_u64(seed), words32: 0, words64: 0, bytes: 0 };
+        match exec(&mut c, shots, &mut rng)
+        {
+            Ok(()) => format!("reg:{} rng:{}/{}/{}", join(&c.cstate().unwrap().to_vec()).replace(' ', ","), rng.words32, rng.words64, rng.bytes),
+            Err(e) => show_err(&e).replace(' ', "_")
+        }
+    });
+    r.unwrap_or_else(|_| "panic".to_string())
+}
+
+/// Wide registers on the state-vector representation: Hadamards on a few qubits (so that measure_all / peek_all see
+/// several distinct outcomes), some entanglers, then measure_all / peek_all, optionally a conditional gate reading the
+/// register and a second measure_all.  Above 8 qubits the state has more than 256 amplitudes.
+fn gen_wide(rng: &mut SplitMix64) -> CircuitText
+{
+    let nq = 7 + rng.below(5) as usize;
+    let nc = nq;
+    let mut ops = vec![];
+    let nh = 1 + rng.below(4) as usize;
+    let mut qs: Vec<usize> = (0..nq).collect();
+    rng.shuffle(&mut qs);
+    for &q in qs.iter().take(nh) { ops.push(format!("gate 1 {} H", q)); }
+    for _ in 0..rng.below(3) { let a = qs[rng.below(nh as u64) as usize]; let b = qs[nh + rng.below((nq - nh) as u64) as usize]; ops.push(format!("gate 2 {} {} CX", a, b)); }
+    if rng.coin() { ops.push(format!("gate 1 {} T", qs[0])); }
+    let mut cb: Vec<usize> = (0..nc).collect();
+    if rng.coin() { rng.shuffle(&mut cb); }
+    let all = |cb: &[usize]| format!("{} {}", cb.len(), join(cb));
+    match rng.below(3)
+    {
+        0 => ops.push(format!("measureall {} Z", all(&cb))),
+        1 => { ops.push(format!("peekall {} Z", all(&cb))); ops.push(format!("measureall {} Z", all(&cb))); },
+        _ => { ops.push(format!("measureall {} {}", all(&cb), ["X", "Z"][rng.below(2) as usize]));
+               ops.push(format!("cond 1 {} 1 1 {} X", cb[0], qs[nq - 1]));
+               ops.push(format!("measureall {} Z", all(&cb))); }
+    }
+    CircuitText { nq, nc, ops }
+}
+
 fn parse_ct(nq: usize, nc: usize, ops: &str) -> CircuitText
 {
     CircuitText { nq, nc, ops: ops.split(" ; ").map(|s| s.to_string()).collect() }
@@ -63,10 +119,13 @@ fn main()
         allow_reset_all: true, allow_cond: true, allow_measure_all: true, allow_combinators: true };
     let cfg_s = GenCfg { clifford: true, ..cfg_v };
     let me = std::env::current_exe().unwrap();
-    for i in 0..ncirc
+    let nwide = if thorough() { 120 } else { 24 };
+    for i in 0..ncirc + nwide
     {
-        let (ct, repr) = if i % 2 == 0 { (gen_circuit(&cfg_v, &mut rng), "vector") } else { (gen_circuit(&cfg_s, &mut rng), ["stabilizer", "auto", "vector"][(i / 2) % 3]) };
-        let shots = [1usize, 5, 64, 300][i % 4];
+        let wide = i >= ncirc;
+        let (ct, repr) = if wide { (gen_wide(&mut rng), ["vector", "auto"][i % 2]) }
+            else if i % 2 == 0 { (gen_circuit(&cfg_v, &mut rng), "vector") } else { (gen_circuit(&cfg_s, &mut rng), ["stabilizer", "auto", "vector"][(i / 2) % 3]) };
+        let shots = if wide { [2usize, 7, 40][i % 3] } else { [1usize, 5, 64, 300][i % 4] };
         let seed = rng.next();
         let first = run_once(&ct, shots, seed, repr);
         // consume the ambient generator, then run again
@@ -74,6 +133,15 @@ fn main()
         let _: [u8; 13] = rand::thread_rng().gen();
         let second = run_once(&ct, shots, seed, repr);
         let mut verdict = if first == second { String::new() } else { format!(" rerun-differs[{}|{}]", first, second) };
+        // the same object after another history (same / different shot count, with / without a reexecute in between)
+        if first.starts_with("reg:")
+        {
+            for (same_shots, reex) in [(true, false), (false, false), (true, true)].iter()
+            {
+                let r = run_on_used_object(&ct, shots, seed, repr, *same_shots, *reex);
+                if r != first { verdict += &format!(" used-object-differs(same_shots={},reexecute={})[{}|{}]", same_shots, reex, first, r); break; }
+            }
+        }
         // 16 threads
         let handles: Vec<_> = (0..16).map(|t| { let ct = ct.clone(); let repr = repr.to_string();
             std::thread::spawn(move || { for _ in 0..t { let _: u32 = rand::thread_rng().gen(); } run_once(&ct, shots, seed, &repr) }) }).collect();
